@@ -759,7 +759,8 @@ def _zip(a, c):
     n = max(len(l) for l in ls) if ls else 0
     out = []
     for i in range(n):
-        d = UDict()
+        # "keys in the format .i where i is the index list", as in every example: members in the order of the lists
+        d = {}
         for j, l in enumerate(ls):
             if i < len(l):
                 d[".%d" % j] = l[i]
@@ -782,7 +783,7 @@ def _cross(a, c):
     if total == 0:
         return []
     for _ in range(total):
-        out.append(UDict((".%d" % j, ls[j][idx[j]]) for j in range(len(ls))))
+        out.append(dict((".%d" % j, ls[j][idx[j]]) for j in range(len(ls))))
         for j in range(len(ls)):
             idx[j] += 1
             if idx[j] < len(ls[j]):
